@@ -98,6 +98,90 @@ def _model_to_dict(m, limit=400):
     return out
 
 
+DEFS = {}       # ast id of a definitional hypothesis  ->  (hypothesis kept alive, defined constant)
+_CONSTS = {}    # ast id -> (term kept alive, frozenset of ids of the uninterpreted constants in it)
+
+
+def register_def(hyp, const):
+    """``hyp`` is ``const == <term>`` for a fresh constant that occurs nowhere before: dropping it when nothing else
+    mentions ``const`` loses nothing (any model extends to it)."""
+    DEFS[hyp.get_id()] = (hyp, const)
+
+
+def consts_of(t):
+    i = t.get_id()
+    hit = _CONSTS.get(i)
+    if hit is not None:
+        return hit[1]
+    if len(_CONSTS) > 600000:
+        _CONSTS.clear()
+    if z3.is_quantifier(t):
+        r = consts_of(t.body())
+    elif z3.is_app(t):
+        if t.num_args() == 0:
+            r = frozenset([i]) if t.decl().kind() == z3.Z3_OP_UNINTERPRETED else frozenset()
+        else:
+            acc = set()
+            for c in t.children():
+                acc |= consts_of(c)
+            r = frozenset(acc)
+    else:
+        r = frozenset()
+    _CONSTS[i] = (t, r)
+    return r
+
+
+def prune_defs(hyps, goal):
+    """Drop definitional hypotheses (register_def) whose constant is not reachable from the goal and the other
+    hypotheses.  Fewer hypotheses: a proof stays a proof; a counter-model extends to the dropped definitions."""
+    if not DEFS:
+        return hyps
+    defs, others = [], []
+    for h in hyps:
+        if not isinstance(h, bool) and h.get_id() in DEFS:
+            defs.append((h, DEFS[h.get_id()][1].get_id()))
+        else:
+            others.append(h)
+    if len(defs) < 40:
+        return hyps
+    rel = set()
+    for t in others:
+        if not isinstance(t, bool):
+            rel |= consts_of(t)
+    if goal is not None and not isinstance(goal, bool):
+        rel |= consts_of(goal)
+    keep = []
+    pending = defs
+    changed = True
+    while changed and pending:
+        changed = False
+        rest = []
+        for h, cid in pending:
+            if cid in rel:
+                keep.append(h)
+                rel |= consts_of(h)
+                changed = True
+            else:
+                rest.append((h, cid))
+        pending = rest
+    return others + keep
+
+
+def guarded(s, budget_ms):
+    """s.check() with a watchdog: z3 does not always honour its own timeout (sequence / quantifier
+    instantiation loops); after 1.5x the budget + 2 s the context is interrupted and the answer is unknown."""
+    import threading
+    t = threading.Timer(1.5 * budget_ms / 1000.0 + 2.0, z3.main_ctx().interrupt)
+    t.daemon = True
+    t.start()
+    try:
+        return s.check()
+    except z3.Z3Exception:
+        return z3.unknown
+    finally:
+        t.cancel()
+
+
 class Prover:
     def __init__(self, timeout_ms=None, axioms=(), use_cli=True):
         self.timeout_ms = timeout_ms or QUICK_MS
@@ -105,13 +189,15 @@ class Prover:
         self.use_cli = use_cli
         self.stats = {"z3": 0, "cvc5": 0, "z3-new": 0, "syntactic": 0}
 
-    def check(self, hyps, goal, want_model=True, timeout_ms=None, eval_terms=None, axioms=True):
+    def check(self, hyps, goal, want_model=True, timeout_ms=None, eval_terms=None, axioms=True, cli=True):
         """Return (status, backend, seconds, model-dict, reason).  status in proved/refuted/unknown."""
         t0 = time.time()
         g = z3.simplify(goal) if not isinstance(goal, bool) else z3.BoolVal(goal)
         if z3.is_true(g):
             self.stats["syntactic"] += 1
             return "proved", "syntactic", 0.0, None, None
+        hyps = prune_defs(hyps, g)
+        use_cli = self.use_cli and cli
         s = z3.Solver()
         s.set("timeout", timeout_ms or self.timeout_ms)
         if axioms:
@@ -141,12 +227,14 @@ class Prover:
             if not ok:
                 return "unknown", "z3", dt, None, "hard timeout (%s)" % val
             rs, md, reason = val
+            if DEBUG and dt > 0.5:
+                print("PYVC-SLOW nl-check %.2fs %s :: %s" % (dt, rs, str(g)[:300].replace("\n", " ")))
             if rs == "unsat":
                 self.stats["z3"] += 1
                 return "proved", "z3", dt, None, None
             if rs == "sat":
                 return "refuted", "z3", dt, md, None
-            if self.use_cli:
+            if use_cli:
                 st_cli, be = self._cli(s)
                 dt = time.time() - t0
                 if st_cli == "unsat":
@@ -160,8 +248,8 @@ class Prover:
             # quantifier / sequence reasoning: z3 either answers quickly or not at all; ask it
             # briefly, then cvc5, and only then z3 again with the full budget
             s.set("timeout", 3000)
-            r = s.check()
-            if r == z3.unknown and self.use_cli:
+            r = guarded(s, 3000)
+            if r == z3.unknown and use_cli:
                 st_cli, be = self._cli(s)
                 dt = time.time() - t0
                 if st_cli == "unsat":
@@ -169,9 +257,9 @@ class Prover:
                     return "proved", be, dt, None, None
             if r == z3.unknown:
                 s.set("timeout", full)
-                r = s.check()
+                r = guarded(s, full)
         else:
-            r = s.check()
+            r = guarded(s, full)
         dt = time.time() - t0
         if DEBUG and dt > 0.5:
             print("PYVC-SLOW check %.2fs %s to=%s :: %s" % (dt, r, timeout_ms or self.timeout_ms, str(g)[:160].replace("\n", " ")))
@@ -191,7 +279,7 @@ class Prover:
                             pass
             return "refuted", "z3", dt, md, None
         reason = s.reason_unknown()
-        if self.use_cli:
+        if use_cli:
             st, be = self._cli(s)
             dt = time.time() - t0
             if st == "unsat":
@@ -200,6 +288,25 @@ class Prover:
             if st == "sat":
                 return "refuted", be, dt, {"<model>": "sat reported by %s (no model extracted)" % be}, None
         return "unknown", "z3", dt, None, reason
+
+    def quick(self, hyps, goal, timeout_ms=1500):
+        """z3 only, no CLI back ends, no model: 'proved' or 'unknown' (used for engine-side case decisions)."""
+        g = z3.simplify(goal) if not isinstance(goal, bool) else z3.BoolVal(goal)
+        if z3.is_true(g):
+            return "proved"
+        if z3.is_false(g):
+            return "unknown"
+        hyps = prune_defs(hyps, g)
+        s = z3.Solver()
+        s.set("timeout", timeout_ms)
+        # only the ground, linear part of the hypotheses (fewer hypotheses: still a proof when it succeeds)
+        for h in split_hyps(hyps):
+            if not has_quantifier(h) and not is_nonlinear(h):
+                s.add(h)
+        s.add(z3.Not(g))
+        if is_nonlinear(g):
+            return "unknown"
+        return "proved" if guarded(s, timeout_ms) == z3.unsat else "unknown"
 
     def check_nra(self, hyps, goal, timeout_ms=None):
         t0 = time.time()
@@ -216,6 +323,7 @@ class Prover:
         non-arithmetic subterm by a fresh constant (a sound weakening of the hypotheses) and
         run z3's QF_NRA solver.  Only an 'unsat' answer is used."""
         t0 = time.time()
+        hyps = prune_defs(hyps, goal)
         ground = [z3.simplify(h) for h in split_hyps(hyps) if not has_quantifier(h)]
         ng = z3.simplify(z3.Not(goal))
         r = z3.unknown
@@ -275,7 +383,7 @@ class Prover:
                 hs = split_hyps(hyps)
                 ground = [h for h in hs if not has_quantifier(h)]
                 if len(ground) < len(hs) or self.axioms:
-                    r2 = self.check(ground, g, want_model=False, timeout_ms=min(3000, self.timeout_ms), axioms=False)
+                    r2 = self.check(ground, g, want_model=False, timeout_ms=min(3000, self.timeout_ms), axioms=False, cli=False)
                     if r2[0] == "proved":
                         r = r2
             if r is None:
@@ -293,6 +401,7 @@ class Prover:
 
     def sat(self, hyps, timeout_ms=2000):
         """Is the conjunction satisfiable?  (cover / feasibility).  Returns 'sat'|'unsat'|'unknown'."""
+        hyps = prune_defs(hyps, None)
         s = z3.Solver()
         s.set("timeout", timeout_ms)
         # quantified axioms/hypotheses are left out: a subset of the constraints being unsat
@@ -300,7 +409,7 @@ class Prover:
         for h in split_hyps(hyps):
             if not has_quantifier(h):
                 s.add(h)
-        r = s.check()
+        r = guarded(s, timeout_ms)
         return str(r)
 
     def _cli(self, solver):
@@ -350,43 +459,62 @@ def split_goal(g, depth=0):
     return [g]
 
 
+_HQ = {}        # ast id -> (ast kept alive: z3 recycles ids after GC, answer)
+
+
 def has_quantifier(f):
-    seen = set()
-    stack = [f]
-    while stack:
-        t = stack.pop()
-        if z3.is_quantifier(t):
-            return True
-        i = t.get_id()
-        if i in seen:
-            continue
-        seen.add(i)
-        stack.extend(t.children())
-    return False
+    if isinstance(f, bool):
+        return False
+    i = f.get_id()
+    hit = _HQ.get(i)
+    if hit is not None:
+        return hit[1]
+    if len(_HQ) > 400000:
+        _HQ.clear()
+    if z3.is_quantifier(f):
+        r = True
+    else:
+        r = False
+        for c in f.children():
+            if has_quantifier(c):
+                r = True
+                break
+    _HQ[i] = (f, r)
+    return r
+
+
+_NL = {}
 
 
 def is_nonlinear(g):
-    seen = set()
-    stack = [g]
-    while stack:
-        t = stack.pop()
-        i = t.get_id()
-        if i in seen:
-            continue
-        seen.add(i)
-        if z3.is_app(t):
-            k = t.decl().kind()
+    """memoised per AST id (terms kept alive: z3 recycles ids after GC)"""
+    if isinstance(g, bool):
+        return False
+    i = g.get_id()
+    hit = _NL.get(i)
+    if hit is not None:
+        return hit[1]
+    if len(_NL) > 400000:
+        _NL.clear()
+    r = False
+    if z3.is_quantifier(g):
+        r = is_nonlinear(g.body())
+    else:
+        if z3.is_app(g):
+            k = g.decl().kind()
             if k in (z3.Z3_OP_MUL, z3.Z3_OP_DIV, z3.Z3_OP_POWER):
-                nonconst = [c for c in t.children() if not z3.is_rational_value(c) and not z3.is_int_value(c)]
-                if k == z3.Z3_OP_DIV and not (z3.is_rational_value(t.arg(1)) or z3.is_int_value(t.arg(1))):
-                    return True
-                if len(nonconst) >= 2:
-                    return True
-        if z3.is_quantifier(t):
-            stack.append(t.body())
-        else:
-            stack.extend(t.children())
-    return False
+                nonconst = [c for c in g.children() if not z3.is_rational_value(c) and not z3.is_int_value(c)]
+                if k == z3.Z3_OP_DIV and not (z3.is_rational_value(g.arg(1)) or z3.is_int_value(g.arg(1))):
+                    r = True
+                elif len(nonconst) >= 2:
+                    r = True
+        if not r:
+            for c in g.children():
+                if is_nonlinear(c):
+                    r = True
+                    break
+    _NL[i] = (g, r)
+    return r
 
 
 ARITH_OPS = None
@@ -523,12 +651,22 @@ class Purifier:
         return self.fresh(f)
 
 
+_SPLIT = {}     # ast id -> (hypothesis kept alive, its conjuncts)
+
+
 def split_hyps(hyps):
     out = []
     for h in hyps:
         if isinstance(h, bool):
             h = z3.BoolVal(h)
-        out += split_goal(h)
+        i = h.get_id()
+        hit = _SPLIT.get(i)
+        if hit is None:
+            if len(_SPLIT) > 200000:
+                _SPLIT.clear()
+            hit = (h, split_goal(h))
+            _SPLIT[i] = hit
+        out += hit[1]
     return out
 
 
